@@ -55,10 +55,10 @@ PROPS = {
         assumptions=['object identity = token carried by the instrumented key/value types; Drop logs the token'],
     ),
     'C07': dict(
-        comps=['mon_c07', 'addr_stable', 'api_map', 'api_len', 'api_order'],
-        theorems=['C07_unhinge', 'C07_set_head', 'C07_touch', 'C07_realloc', 'C07_traversal', 'C07_monitor_sound'],
+        comps=['mon_c07', 'addr_stable', 'bsim', 'api_map', 'api_len', 'api_order'],
+        theorems=['C07_unhinge', 'C07_set_head', 'C07_touch', 'C07_realloc', 'C07_traversal', 'C07_b_touch', 'C07_b_remove', 'C07_b_insert_new', 'C07_b_moves', 'C07_monitor_sound'],
         assumptions=['Layer B faults on access to unallocated/freed nodes and on reading moved-out or uninitialised payloads; aliasing-model UB is outside the model (DESIGN.md 6, 9.1)',
-                     'the monitor ri_check (proved sound: C07_monitor_sound) is evaluated on the pointer graph the dangling-safe hook walker reports after every step; bucket addresses of surviving entries must be stable unless the table was rebuilt'],
+                     'the monitor ri_check (proved sound: C07_monitor_sound) is evaluated on the pointer graph the dangling-safe hook walker reports after every step; bucket addresses of surviving entries must be stable unless the table was rebuilt', 'bsim: the extracted Layer B operations (B/OpsB.v: touch_ptr, unhinge, set_head, move, composed as src/lib.rs composes them) are run on the observed pointer graph before each step and must produce exactly the links and recorded sizes observed after it'],
     ),
     'C08': dict(engine='memsize_check', comps=[],
         theorems=['C08_bulk', 'C08_mem', 'C08_container', 'C08_wrapper', 'C08_depth', 'C08_depth_empty_sections', 'C08_flat_iterator'],
@@ -67,7 +67,7 @@ PROPS = {
         theorems=['C09_exact', 'C09_upper', 'C09_map', 'C09_set', 'C09_ref'],
         assumptions=['no Mutex/RwLock is poisoned (DESIGN.md 9.4)']),
     'C10': dict(
-        comps=['res', 'atomic', 'keyset', 'order', 'ents', 'sizes', 'cur', 'max', 'drops', 'evict_order'],
+        comps=['res', 'atomic', 'keyset', 'evict_order'],
         ops=INS,
         theorems=['C10_insert', 'C10_try_insert'],
     ),
@@ -90,7 +90,7 @@ PROPS = {
                      'allocator refusal is injected by the harness allocator for try_reserve'],
     ),
     'C14': dict(
-        comps=['res', 'keyset', 'order', 'ents', 'sizes', 'cur', 'max', 'clone_cap', 'clone_fresh', 'drops'],
+        comps=['res', 'keyset', 'order', 'ents', 'sizes', 'cur', 'max', 'clone_cap', 'clone_fresh', 'drops', 'bsim'],
         ops=['clone'],
         comps_any=['oth'],
         theorems=['C14_equal', 'C14_fresh', 'C14_inv'],
@@ -100,6 +100,14 @@ PROPS = {
         comps=['visits', 'res', 'keyset', 'order', 'ents', 'sizes', 'cur', 'max', 'drops'],
         ops=['retain'],
         theorems=['C15_retain'],
+    ),
+    'C16': dict(
+        comps=['panic_state', 'panic_drops', 'panic_ri', 'panic_acc', 'panic_nodup', 'panic_bound', 'panic_lost', 'panic_ledger'] +
+              [(c, None, 'panic') for c in ('drop_once', 'mon_c07', 'api_map', 'api_len', 'api_order', 'mon_c04', 'addr_stable')],
+        theorems=['C16_all_points', 'C16_closure', 'C16_predicate', 'C16_clone'],
+        assumptions=['panics are injected at the n-th Hash / Eq / Clone / HeapSize call and in the mutate closure / retain predicate of the instrumented types, for every such call each candidate operation makes in each generated state; the unwind is caught, the cache is used further and dropped',
+                     'Eq call counts depend on hashbrown probing: an Eq panic must land in one of the states the model lists for comparisons of that operation',
+                     'panics in Drop implementations are outside the property'],
     ),
     'C17': dict(
         comps=['drop_once', ('mon_c06', ITERS), ('res', ITERS), ('drops', ITERS), ('ents', ['drain']), ('cur', ['drain']), ('keyset', ['drain']),
@@ -149,4 +157,5 @@ MANIFEST_TEXT = {
     'C09': dict(engine='coq-layerM+probe', text='Theorems C09_exact (for the exact class of constructors and any nesting, heap_size = alloc_bytes, the ground-truth model of what std keeps allocated, under len <= cap well-typedness), C09_upper, C09_map / C09_set (bounds for hash tables), C09_ref. alloc_bytes is validated against a counting global allocator on every probed value, and the real heap_size is compared with both.', note='Coq kernel, no axioms; alloc_bytes is a model of std allocation behaviour validated (exactly, on every probed value) against the counting allocator; hashbrown bucket counts recovered from capacity()', technique='Coq proof + model evaluated in Coq against the real implementation and a counting allocator (differential)', ref='DESIGN.md section 7 (C09), coq/M/README.md'),
     'C07': dict(text='Layer B (heap of nodes with links, recorded size and payload ownership; any access to a freed node or a moved-out payload faults): theorems C07_unhinge / C07_set_head / C07_touch (list surgery at every position keeps the representation invariant RI and never faults), C07_realloc (for EVERY table iteration order the reallocation loop re-links all entries, frees every old bucket, never touches freed memory, and leaves the abstract list unchanged), C07_traversal (cursors never step onto the seal). The monitor ri_check, proved sound (C07_monitor_sound), is evaluated on the implementation pointer graph read by the dangling-safe hook after every step, with address stability and lookups-hit-the-linked-bucket checks.', note='Coq kernel, no axioms; Layer B transliterates the list surgery and the reallocation loop by hand; the composition of whole public operations from these primitives is argued in DESIGN.md, not proved; Rust aliasing rules not modelled', technique='Coq proof (separation-style reasoning on a functional heap, induction over arbitrary iteration orders) + extracted monitor on hook snapshots'),
     'C17': dict(text='Theorem C17_taking_run (Layer B, payload ownership): for every pattern and prefix a taking iterator never reads a moved-out payload, moves out exactly what it yielded, each once, leaves all other buckets live and links untouched; C17_drain_forget (Layer A): a forgotten Drain leaves an empty consistent cache, drops nothing, leaks exactly the unconsumed; C17_into_iter_forget. On the implementation every generated trace forgets iterators after random prefixes and keeps using and dropping the caches; any token dropped twice or dropped after being handed back is a violation.', note=_A + '; borrowing iterators own nothing', technique=_T),
+    'C16': dict(text='Model of every point at which an operation calls user code (A/PanicA.v: panic_points, with the state an unwinder finds and the tokens unwinding drops). Theorem C16_all_points: for every operation, state, oracle and EVERY such point the accounting invariant holds (current_size = sum of recorded sizes <= max_size, distinct keys), nothing held appeared from nowhere, and nothing dropped by unwinding is still held; C16_closure / C16_predicate: at closure / predicate points nothing is lost except what the predicate rejected; C16_clone: the source is untouched. Correspondence: panic_trace injects a panic at every callback of every candidate operation in generated states of the real crate (debug and release); the state found after catch_unwind must be the state the model lists for that point, the pointer graph must satisfy ri_check, and the cache is used further and dropped with identity-level drop tracking.', note=_A + '; pointer-level coherence at a panic point follows from callbacks sitting only between the list-surgery primitives proved in Layer B (argued from the structure of panic_points, not a separate theorem)', technique='Coq proof over a model of all callback points + systematic fault injection on the implementation compared with the model (fault enumeration)'),
 }
